@@ -187,9 +187,17 @@ def v_case(rng, cid, big_ok):
     else:
         limit = {"abs": 100 * 1024 * 1024}
     faulty = rng.random() < 0.35
+    sc = script(rng, 30, faulty=faulty)
+    if ch > 4096:
+        # An RPC-level refusal is realised by the remote gorpc server denying the call before it reads the
+        # arguments; with a block larger than the stream window the client then blocks in Write for ever
+        # (the importer calls DAGService.Add with context.TODO()). Liveness is not part of C13: large-chunk
+        # runs only use daemon-level ("app") failures.
+        for d in sc["out"]:
+            sc["out"][d] = ["app" if r == "rpc" else r for r in sc["out"][d]]
     return {"id": cid, "mode": "V", "class": kind, "shard": shard, "limit": limit, "rmin": f[0], "rmax": f[1],
             "local": (not shard) and rng.random() < 0.25, "name": rng.choice(["v", "my add", ""]),
-            "script": script(rng, 30, faulty=faulty), "tree": tree, "top": top,
+            "script": sc, "tree": tree, "top": top,
             "via": rng.choice(["files", "multipart"]), "wrap": rng.random() < 0.5, "chunker": chname,
             "layout": rng.choice(["balanced", "trickle"]), "rawleaves": rawleaves, "cidv": cidv, "hash": h,
             "flip": rng.random() < 0.7}
@@ -205,9 +213,9 @@ def gen_cases(ctx):
         c["id"] = nid[0]
         cases.append(c)
     quick = ctx.quick()
-    for _ in range(500 if quick else 6000):
+    for _ in range(500 if quick else 12000):
         add(r_random(rng, 0))
-    for _ in range(200 if quick else 2500):
+    for _ in range(200 if quick else 4000):
         add(r_boundary(rng, 0))
     local = [{"ok": True, "peers": ["p1"]}]
     two = [{"ok": True, "peers": ["p1", "p2"]}]
@@ -218,7 +226,7 @@ def gen_cases(ctx):
                   out={"p1": [], "p2": ["ok"] * 3000 + ["rpc"], "p3": ["ok"] * 10 + ["app"]}))
         add(r_big(0, 2 * MAXLINKS, local))         # exact multiple: the empty trailing leaf
         add(r_big(0, 2 * MAXLINKS + 5, local, limit_abs=3 * (MAXLINKS + 3) + 1))   # indirect shard, then a direct one
-    for _ in range(120 if quick else 1500):
+    for _ in range(120 if quick else 4000):
         add(v_case(rng, 0, big_ok=not quick or rng.random() < 0.15))
     # put failure exactly at the first chunk of a two-chunk file (balanced layout): see known_findings.d/c13.json
     add({"mode": "V", "class": "first-chunk-put-fails", "shard": False, "limit": {"abs": 100 * 1024 * 1024},
@@ -243,7 +251,7 @@ def gen_cases(ctx):
         add(car(2 * MAXLINKS))
         add(car(3 * MAXLINKS + 7))
     k = 0
-    while k < (12 if quick else 150):
+    while k < (12 if quick else 300):
         c = v_case(rng, 0, big_ok=False)
         if c["limit"]["abs"] < 300:
             continue
@@ -388,6 +396,9 @@ def run(ctx):
         cfg = "AdderMC_quick.cfg" if ctx.quick() else "AdderMC_thorough.cfg"
         ctx.tlc("AdderMC.tla", cfg, workers=int(os.environ.get("VERIF_WORKERS", "8")), timeout=3000)
         ctx.exhaustive = True
+        if not ctx.quick():     # two simultaneous put faults (smaller streams)
+            ctx.tlc("AdderMC.tla", "AdderMC_thorough2.cfg", workers=int(os.environ.get("VERIF_WORKERS", "8")),
+                    timeout=3000)
         w = ctx.tlc("AdderMC.tla", "AdderMC_coded.cfg", workers=4, timeout=1200, expect_violation=True, count=False)
         ctx.extra["design_witness_coded_depth_rule"] = bool(w.violation)
     # GEN + R + V
